@@ -603,9 +603,10 @@ def rule_nf6(ctx: Ctx) -> RuleResult:
     ok = False
     for lp in walk_no_nested(f.node):
         if isinstance(lp, ast.For) and norm(lp.iter) in ("self.models", "self._registry.values()") and isinstance(lp.target, ast.Name):
-            calls = [c for s in lp.body for c in ast.walk(s) if isinstance(c, ast.Call) and isinstance(c.func, ast.Attribute)
-                     and c.func.attr == "optimize_type" and c.args and norm(c.args[0]) == lp.target.id]
-            if calls and len(lp.body) == 1 and merges and lp.lineno > merges[0].lineno:
+            calls = [st.value for st in lp.body if isinstance(st, ast.Expr) and isinstance(st.value, ast.Call)
+                     and isinstance(st.value.func, ast.Attribute) and st.value.func.attr == "optimize_type"
+                     and st.value.args and norm(st.value.args[0]) == lp.target.id]
+            if calls and not has_escape(lp.body) and merges and lp.lineno > merges[0].lineno:
                 ok = True
     rr.ob(f.relpath, f.qualname, "for model_meta in self.models: generator.optimize_type(model_meta)",
           "after all merges every registered model is simplified again", DISCHARGED if ok else VIOLATED,
@@ -738,4 +739,81 @@ def rule_drop1(ctx: Ctx) -> RuleResult:
     rr.ob(cv.relpath, cv.qualname, "fields[key] = self._detect_type(value, convert_dict)", "every key of a sample gets a field "
           "(the only other way out is the TypeError for non-string keys)", DISCHARGED if ok else VIOLATED,
           "stored on every non-raising path" if ok else "some keys are skipped", cv.node.lineno)
+    return rr
+
+
+def rule_val1(ctx: Ctx) -> RuleResult:
+    """The value whose type is detected is the sample value itself, and detection uses the configured registry."""
+    rr = RuleResult("VAL-1", "types are detected on the sample values themselves, with the configured string-type registry", floor=4)
+    prog = ctx.prog
+    det = prog.func(GEN, "MetadataGenerator._detect_type")
+    for fname in ("MetadataGenerator._convert", "MetadataGenerator._detect_type"):
+        f = prog.func(GEN, fname)
+        for n in walk_no_nested(f.node):
+            if not (isinstance(n, ast.Call) and det in [t for t in ctx.cg.resolve_call(f, f.module, n) if isinstance(t, FuncInfo)]):
+                continue
+            rr.instances += 1
+            a = n.args[0] if n.args else None
+            ok = False
+            why = "argument is not a plain element of the sample"
+            if isinstance(a, ast.Name):
+                # the name must be bound by iteration over the sample (loop / comprehension target) and never reassigned
+                binders = []
+                p = f.module.parents.get(n)
+                while p is not None and p is not f.node:
+                    if isinstance(p, (ast.ListComp, ast.GeneratorExp, ast.SetComp, ast.DictComp)):
+                        binders += [g for g in p.generators if a.id in names_in(g.target)]
+                    if isinstance(p, ast.For) and a.id in names_in(p.target):
+                        binders.append(p)
+                    p = f.module.parents.get(p)
+                rebinds = [d for d in walk_no_nested(f.node) if isinstance(d, (ast.Assign, ast.AugAssign, ast.AnnAssign)) and any(
+                    isinstance(t, ast.Name) and t.id == a.id for t in (d.targets if isinstance(d, ast.Assign) else [d.target]))]
+                # inside _detect_type the parameter itself is re-bound only by the parser call of the detection loop (DET-1)
+                rebinds = [d for d in rebinds if not (isinstance(d.value, ast.Call) and isinstance(d.value.func, ast.Attribute)
+                                                      and d.value.func.attr == "to_internal_value")]
+                ok = bool(binders) and not rebinds
+                why = "" if ok else (f"`{norm(rebinds[0])[:50]}` rewrites the value before its type is detected: literals and "
+                                     f"pseudo-types are inferred from text that never occurred in the samples" if rebinds else
+                                     "not bound by iterating the sample")
+            rr.ob(f.relpath, f.qualname, norm(n)[:70], "the value handed to type detection is an element of the sample, as "
+                  "observed (no normalisation before detection)", DISCHARGED if ok else VIOLATED, "element of the sample" if ok else why,
+                  n.lineno)
+    # REGUSE-1: inside the generator, only the configured registry is consulted
+    cls = prog.cls(GEN, "MetadataGenerator")
+    for ms in cls.methods.values():
+        for f in ms:
+            for n in walk_no_nested(f.node):
+                if isinstance(n, ast.Name) and n.id == "registry" and isinstance(n.ctx, ast.Load):
+                    rr.instances += 1
+                    ok = f.name == "__init__"
+                    rr.ob(f.relpath, f.qualname, norm(f.module.parents.get(n))[:70], "the module-level default registry is "
+                          "only the fallback chosen in __init__; every lookup goes through self.str_types_registry", DISCHARGED if ok else VIOLATED,
+                          "default selection" if ok else "the default registry is consulted directly: a registry passed to the "
+                          "generator (with types added or disabled) is ignored here", n.lineno)
+    return rr
+
+
+def rule_nf7(ctx: Ctx) -> RuleResult:
+    """DUnion.__init__: the 'literals still usable' flag returned by the member handler is never dropped."""
+    rr = RuleResult("NF-7", "str seen anywhere among the members switches string literals off for the whole union", floor=2)
+    f = ctx.prog.func(CPLX, "DUnion.__init__")
+    inner = [g for g in ctx.prog.all_funcs() if g.parent is f]
+    if not inner:
+        raise AnalysisError("NF-7: member handler closure of DUnion.__init__ not found")
+    h = inner[0]
+    for n in walk_no_nested(f.node):
+        if isinstance(n, ast.Call) and isinstance(n.func, ast.Name) and n.func.id == h.name:
+            rr.instances += 1
+            st = f.module.parents.get(n)
+            while st is not None and not isinstance(st, ast.stmt):
+                st = f.module.parents.get(st)
+            const_false = any((isinstance(a, ast.Constant) and a.value is False) for a in n.args[1:]) or any(
+                k.arg and isinstance(k.value, ast.Constant) and k.value.value is False for k in n.keywords)
+            kept = isinstance(st, ast.Assign) and isinstance(st.targets[0], ast.Name)
+            ok = kept or const_false
+            rr.ob(f.relpath, f.qualname, norm(st)[:80], "the flag returned by the member handler is folded back into the union's "
+                  "state (or the call is the final `add str` with literals already off)", DISCHARGED if ok else VIOLATED,
+                  "result kept" if kept else ("final str insertion" if const_false else
+                  "result discarded: a str inside a nested union no longer suppresses literals passed next to it, so str and "
+                  "Literal coexist"), n.lineno)
     return rr
